@@ -16,6 +16,7 @@ type c18Params struct {
 	Resp int    `json:"resp"`
 	Part int    `json:"part"`
 	Of   int    `json:"of"`
+	Lose bool   `json:"lose,omitempty"` // session-less broker: every reconnect re-subscribes
 }
 
 var c18Workloads = []string{"q1x3", "q2x2", "mixed", "waits"}
@@ -31,6 +32,11 @@ func c18Gen(tier string, seed int64) []fw.Case {
 				cs = append(cs, fw.Mk(fmt.Sprintf("pairs/%s/resp%d/%d", w, resp, i), c18Params{W: w, Mode: "pairs", Resp: resp, Part: i, Of: parts}))
 			}
 		}
+	}
+	// re-subscriptions whose SUBACK is dropped (session-less broker)
+	for _, resp := range []int{8, 15} {
+		cs = append(cs, fw.Mk(fmt.Sprintf("single/resub-lose/resp%d", resp), c18Params{W: "resub", Mode: "single", Resp: resp, Lose: true}))
+		cs = append(cs, fw.Mk(fmt.Sprintf("pairs/resub-lose/resp%d", resp), c18Params{W: "resub", Mode: "pairs", Resp: resp, Part: 0, Of: 1, Lose: true}))
 	}
 	return cs
 }
@@ -78,7 +84,11 @@ func c18Run(c fw.Case, env *fw.Env) fw.Result {
 	stuck := 0
 	for pi, f := range plans {
 		// the error a transport returns after the library's own Close differs between transports: net.Pipe, TCP, memnet's own
-		sc := scen.Scenario{Client: "reconnect", Cfg: scen.BrokerCfg{Method: "A", Session: "keep"}, Steps: w.Steps, Pre: w.Pre, Faults: f, RespMs: p.Resp, WaitBaseMs: 1, WaitMaxMs: 2, TimeoutMs: 40, CloseStyle: []string{"pipe", "net", ""}[pi%3], CloseLinger: []int{0, 0, 3}[(pi/3)%3]}
+		session := "keep"
+		if p.Lose {
+			session = "lose"
+		}
+		sc := scen.Scenario{Client: "reconnect", Cfg: scen.BrokerCfg{Method: "A", Session: session}, Steps: w.Steps, Pre: w.Pre, Faults: f, RespMs: p.Resp, WaitBaseMs: 1, WaitMaxMs: 2, TimeoutMs: 40, CloseStyle: []string{"pipe", "net", ""}[pi%3], CloseLinger: []int{0, 0, 3}[(pi/3)%3], OnErrorPublishes: pi%2 == 1}
 		run := scen.Exec(&sc)
 		r.Evals++
 		a := scen.Analyse(run)
